@@ -223,4 +223,196 @@ theorem refines_sum (out c : List Nat) (h : refines out c = true) : out.sum = c.
           omega
         · simp [hlt] at h
 
+/-! ### `broadcast_shapes`: dask's rule for one column is NumPy's -/
+
+theorem maxInt_mem (l : List Int) (h : l ≠ []) : maxInt l ∈ l := by
+  induction l with
+  | nil => exact absurd rfl h
+  | cons x r ih =>
+    simp only [maxInt]
+    by_cases hr : r.isEmpty = true
+    · simp [hr]
+    · have hr' : r ≠ [] := by
+        intro e; subst e; simp at hr
+      have := ih hr'
+      simp only [hr, Bool.false_eq_true, if_false]
+      by_cases hlt : maxInt r < x
+      · simp [hlt]
+      · simp only [hlt, if_false]
+        exact List.mem_cons_of_mem _ this
+
+theorem maxInt_ge (l : List Int) (x : Int) (hx : x ∈ l) : x ≤ maxInt l := by
+  induction l with
+  | nil => simp at hx
+  | cons y r ih =>
+    simp only [maxInt]
+    by_cases hr : r.isEmpty = true
+    · have : r = [] := by simpa using hr
+      subst this
+      simp at hx
+      simp [hx]
+    · simp only [hr, Bool.false_eq_true, if_false]
+      rcases List.mem_cons.mp hx with hx | hx
+      · subst hx
+        by_cases hlt : maxInt r < x
+        · simp [hlt]
+        · simp only [hlt, if_false]; omega
+      · have := ih hx
+        by_cases hlt : maxInt r < y
+        · simp only [hlt, if_true]; omega
+        · simp only [hlt, if_false]; exact this
+
+theorem all_beq_iff (d : Int) (r : List Int) : (r.all (· == d) = true) ↔ ∀ x ∈ r, x = d := by
+  simp [List.all_eq_true]
+
+/-- membership in the list of sizes that are neither missing (`-1`) nor `1` -/
+theorem mem_nz (sizes : List Int) (x : Int) :
+    x ∈ (sizes.filter (· != -1)).filter (· != 1) ↔ x ∈ sizes ∧ x ≠ -1 ∧ x ≠ 1 := by
+  constructor
+  · intro h
+    have h1 := List.mem_filter.mp h
+    have h2 := List.mem_filter.mp h1.1
+    exact ⟨h2.1, by simpa using h2.2, by simpa using h1.2⟩
+  · intro ⟨h1, h2, h3⟩
+    exact List.mem_filter.mpr ⟨List.mem_filter.mpr ⟨h1, by simpa using h2⟩, by simpa using h3⟩
+
+/-- **one column**: with every size ≥ -1 and at least one dimension present, dask's `dim`/check pair accepts exactly
+    when NumPy's rule does and yields the same length -/
+theorem bdim_eq_npdim (sizes : List Int) (hge : ∀ x ∈ sizes, -1 ≤ x) (hex : ∃ x ∈ sizes, x ≠ -1) :
+    bdim sizes = npdim sizes := by
+  obtain ⟨x0, hx0, hx0ne⟩ := hex
+  have hne : sizes ≠ [] := by intro e; subst e; simp at hx0
+  unfold bdim npdim
+  by_cases h0 : (0 : Int) ∈ sizes
+  · -- a zero-length dimension takes part
+    have hc : sizes.contains 0 = true := by simpa using h0
+    simp only [hc, if_true]
+    have h0nz : (0 : Int) ∈ (sizes.filter (· != -1)).filter (· != 1) := (mem_nz sizes 0).mpr ⟨h0, by omega, by omega⟩
+    by_cases hbad : ∃ i ∈ sizes, i ≠ -1 ∧ i ≠ 0 ∧ i ≠ 1
+    · obtain ⟨i, hi, h1, h2, h3⟩ := hbad
+      have hany : sizes.any (fun i => i != -1 && i != 0 && i != 1 && i != 0) = true := by
+        apply List.any_eq_true.mpr
+        exact ⟨i, hi, by simp [h1, h2, h3]⟩
+      simp only [hany, if_true]
+      have hinz : i ∈ (sizes.filter (· != -1)).filter (· != 1) := (mem_nz sizes i).mpr ⟨hi, h1, h3⟩
+      cases hnz : (sizes.filter (· != -1)).filter (· != 1) with
+      | nil => rw [hnz] at h0nz; simp at h0nz
+      | cons d r =>
+        rw [hnz] at h0nz hinz
+        have : ¬ (r.all (· == d) = true) := by
+          intro hall
+          have hall' := (all_beq_iff d r).mp hall
+          have e0 : (0 : Int) = d := by
+            rcases List.mem_cons.mp h0nz with h | h
+            · exact h
+            · exact hall' 0 h
+          have ei : i = d := by
+            rcases List.mem_cons.mp hinz with h | h
+            · exact h
+            · exact hall' i h
+          omega
+        simp [this]
+    · have hany : sizes.any (fun i => i != -1 && i != 0 && i != 1 && i != 0) = false := by
+        cases ha : sizes.any (fun i => i != -1 && i != 0 && i != 1 && i != 0) with
+        | false => rfl
+        | true =>
+          obtain ⟨i, hi, hc⟩ := List.any_eq_true.mp ha
+          exfalso
+          apply hbad
+          refine ⟨i, hi, ?_⟩
+          simp at hc
+          omega
+      simp only [hany, Bool.false_eq_true, if_false]
+      cases hnz : (sizes.filter (· != -1)).filter (· != 1) with
+      | nil => rw [hnz] at h0nz; simp at h0nz
+      | cons d r =>
+        have hallz : ∀ y ∈ d :: r, y = 0 := by
+          intro y hy
+          rw [← hnz] at hy
+          obtain ⟨hy1, hy2, hy3⟩ := (mem_nz sizes y).mp hy
+          by_cases hyz : y = 0
+          · exact hyz
+          · exact absurd ⟨y, hy1, hy2, hyz, hy3⟩ hbad
+        have hd : d = 0 := hallz d (by simp)
+        subst hd
+        have : r.all (· == (0 : Int)) = true := (all_beq_iff 0 r).mpr (fun y hy => hallz y (by simp [hy]))
+        simp [this]
+  · -- no zero-length dimension: `dim` is the maximum
+    have hc : sizes.contains 0 = false := by simpa using h0
+    simp only [hc, Bool.false_eq_true, if_false]
+    have hM := maxInt_mem sizes hne
+    have hMge := maxInt_ge sizes
+    have hpos : ∀ y ∈ sizes, y = -1 ∨ 1 ≤ y := by
+      intro y hy
+      have := hge y hy
+      have : y ≠ 0 := fun e => h0 (e ▸ hy)
+      omega
+    have hM1 : 1 ≤ maxInt sizes := by
+      have := hMge x0 hx0
+      rcases hpos x0 hx0 with h | h
+      · exact absurd h hx0ne
+      · omega
+    by_cases hbad : ∃ i ∈ sizes, i ≠ -1 ∧ i ≠ 1 ∧ i ≠ maxInt sizes
+    · obtain ⟨i, hi, h1, h3, h4⟩ := hbad
+      have hi2 : 2 ≤ i := by rcases hpos i hi with h | h <;> omega
+      have hany : sizes.any (fun i => i != -1 && i != 0 && i != 1 && i != maxInt sizes) = true := by
+        apply List.any_eq_true.mpr
+        refine ⟨i, hi, ?_⟩
+        have : i ≠ 0 := by omega
+        simp [h1, h3, h4, this]
+      simp only [hany, if_true]
+      have hinz : i ∈ (sizes.filter (· != -1)).filter (· != 1) := (mem_nz sizes i).mpr ⟨hi, h1, h3⟩
+      have hMnz : maxInt sizes ∈ (sizes.filter (· != -1)).filter (· != 1) := by
+        have := hMge i hi
+        exact (mem_nz sizes _).mpr ⟨hM, by omega, by omega⟩
+      cases hnz : (sizes.filter (· != -1)).filter (· != 1) with
+      | nil => rw [hnz] at hinz; simp at hinz
+      | cons d r =>
+        rw [hnz] at hinz hMnz
+        have : ¬ (r.all (· == d) = true) := by
+          intro hall
+          have hall' := (all_beq_iff d r).mp hall
+          have e1 : maxInt sizes = d := by
+            rcases List.mem_cons.mp hMnz with h | h
+            · exact h
+            · exact hall' _ h
+          have e2 : i = d := by
+            rcases List.mem_cons.mp hinz with h | h
+            · exact h
+            · exact hall' i h
+          omega
+        simp [this]
+    · have hany : sizes.any (fun i => i != -1 && i != 0 && i != 1 && i != maxInt sizes) = false := by
+        cases ha : sizes.any (fun i => i != -1 && i != 0 && i != 1 && i != maxInt sizes) with
+        | false => rfl
+        | true =>
+          obtain ⟨i, hi, hc⟩ := List.any_eq_true.mp ha
+          exfalso
+          apply hbad
+          refine ⟨i, hi, ?_⟩
+          simp at hc
+          omega
+      simp only [hany, Bool.false_eq_true, if_false]
+      cases hnz : (sizes.filter (· != -1)).filter (· != 1) with
+      | nil =>
+        -- every present dimension is 1
+        have : maxInt sizes = 1 := by
+          have hnot : maxInt sizes ∉ (sizes.filter (· != -1)).filter (· != 1) := by rw [hnz]; simp
+          by_cases h1 : maxInt sizes = 1
+          · exact h1
+          · exact absurd ((mem_nz sizes (maxInt sizes)).mpr ⟨hM, by omega, h1⟩) hnot
+        simp [this]
+      | cons d r =>
+        have hallM : ∀ y ∈ d :: r, y = maxInt sizes := by
+          intro y hy
+          rw [← hnz] at hy
+          obtain ⟨hy1, hy2, hy3⟩ := (mem_nz sizes y).mp hy
+          by_cases hyM : y = maxInt sizes
+          · exact hyM
+          · exact absurd ⟨y, hy1, hy2, hy3, hyM⟩ hbad
+        have hd : d = maxInt sizes := hallM d (by simp)
+        have : r.all (· == d) = true := (all_beq_iff d r).mpr (fun y hy => by rw [hd]; exact hallM y (by simp [hy]))
+        show some (maxInt sizes) = if (r.all fun x => x == d) = true then some d else none
+        rw [if_pos this, hd]
+
 end Dask.Elemwise
